@@ -48,6 +48,18 @@ def partitions(rnd, total, sent_lens, n_random, every_cut):
     return out
 
 
+def boundary_rejects(run, seed, quick):
+    """C18 (end-of-message detection): the framing scenarios whose values contain the CheckSum tag text and whose tags
+    end in its digits, incl. fields longer than a read buffer; returns the FramingTrace rejections about delivered messages."""
+    rnd = random.Random(seed + 18)
+    binp = go_test_build("./wirerig/", "wirerig.test")
+    scns = scenarios(rnd, quick, only_inbound=True)
+    traces = sc.run_driver(run, binp, scns, "boundaries", testname="TestFraming")
+    run.traces += len(scns)
+    rejects = sc.validate(run, traces, module="FramingTrace", mods=["Framing.tla", "FramingTrace.tla"])
+    return [r for r in rejects if "handler was not given exactly the messages" in r[2]], scns
+
+
 def check(prop, tier, seed):
     run = Run(prop, tier, seed)
     quick = tier == "quick"
@@ -57,6 +69,13 @@ def check(prop, tier, seed):
         cfg = ("SPECIFICATION Spec\nCONSTANTS\n Conns = %s\n Cap = %d\nINVARIANTS DeliveredPrefix Conservation AllDelivered FunctionalForm\nCHECK_DEADLOCK FALSE\n" % (conns, cap))
         res = tlc("MCFraming", cfg, run.sub("mc-%s-%d" % (conns.strip("{}").replace(",", ""), cap)), ["Framing.tla", "MCFraming.tla"], workers=NCPU, timeout=2400, heap="12g")
         run.add_mc(res, "MCFraming conns=%s cap=%d: all partitions of the streams into read chunks" % (conns, cap))
+    scns = scenarios(rnd, quick)
+    traces = sc.run_driver(run, binp, scns, "framing", testname="TestFraming")
+    run.traces = len(scns)
+    return finish_check(run, prop, scns, traces)
+
+
+def scenarios(rnd, quick, only_inbound=False):
     scns = []
     k = 0
     for si in range(6 if quick else 60):
@@ -68,6 +87,33 @@ def check(prop, tier, seed):
             scns.append(dict(id="f%d" % k, role=role, buf=rnd.choice([0, 1, 10]), senders=rnd.choice([1, 2, 4]),
                              conns=[dict(sent=[list(m) for m in msgs], chunks=p, out=rnd.choice([0, 3, 8]))]))
             k += 1
+    # read timings: a stall between two chunks (longer than any plausible polling interval of a reader) placed
+    # inside the CheckSum segment, right before a value's "10=" text, and at other cuts
+    for si in range(10 if quick else 120):
+        msgs = [frame([("35", b"D"), ("49", b"PEER"), ("56", b"SRV"), ("34", b"7"), ("58", b"see tag \x0210=checksum and 10=000 again")])] + \
+               [gen_msg(rnd) for _ in range(rnd.randint(1, 2))]
+        stream = b"".join(msgs)
+        total = len(stream)
+        first = len(msgs[0])
+        cands = [first - 6, first - 5, first - 4, first - 2, stream.find(b"10=checksum"), stream.find(b"10=000 again"),
+                 stream.find(b"10=checksum") + 1, first, rnd.randint(1, total - 1)]
+        cut = sorted({c for c in rnd.sample(cands, 3) if 0 < c < total})
+        prev, chunks = 0, []
+        for c in cut + [total]:
+            chunks.append(c - prev)
+            prev = c
+        gaps = [0] + [rnd.choice([150, 250]) for _ in chunks[1:]]
+        scns.append(dict(id="t%d" % si, role=rnd.choice(["acceptor", "initiator"]), buf=rnd.choice([0, 1, 10]), senders=1,
+                         conns=[dict(sent=[list(m) for m in msgs], chunks=chunks, gapsMs=gaps, out=0)]))
+    # fields longer than the usual 4096-byte read buffer, with the text "10=" around the buffer boundary inside the value
+    for si in range(16 if quick else 200):
+        off = rnd.choice([4088, 4090, 4091, 4092, 4093, 4094, 4095, 4096, 4097, 8189, 8190, 8192, 4093 - 3, 12285]) + rnd.choice([0, 0, 0, 1, -1])
+        val = b"y" * max(1, off) + b"10=123" + b"z" * rnd.randint(0, 40)
+        msgs = [frame([("35", b"D"), ("49", b"PEER"), ("56", b"SRV"), ("34", b"3"), ("58", val)]), gen_msg(rnd)]
+        total = sum(len(m) for m in msgs)
+        chunks = rnd.choice([[total], [4096] * (total // 4096) + ([total % 4096] if total % 4096 else []), [100, total - 100]])
+        scns.append(dict(id="L%d" % si, role=rnd.choice(["acceptor", "initiator"]), buf=rnd.choice([0, 10]), senders=1,
+                         conns=[dict(sent=[list(m) for m in msgs], chunks=chunks, out=0)]))
     # several simultaneous connections on one acceptor
     for si in range(20 if quick else 300):
         cs = []
@@ -77,8 +123,14 @@ def check(prop, tier, seed):
             p = rnd.choice(partitions(rnd, total, [len(m) for m in msgs], 3, False))
             cs.append(dict(sent=[list(m) for m in msgs], chunks=p, out=rnd.choice([0, 4])))
         scns.append(dict(id="m%d" % si, role="acceptor", buf=rnd.choice([0, 1, 10]), senders=rnd.choice([1, 3]), conns=cs))
-    traces = sc.run_driver(run, binp, scns, "framing", testname="TestFraming")
-    run.traces = len(scns)
+    if only_inbound:
+        for s_ in scns:
+            for c in s_["conns"]:
+                c["out"] = 0
+    return scns
+
+
+def finish_check(run, prop, scns, traces):
     rejects = sc.validate(run, traces, module="FramingTrace", mods=["Framing.tla", "FramingTrace.tla"])
     viol, kn = classify(prop, [r for r in rejects if r[0] == prop])
     run.add_known(kn)
